@@ -272,6 +272,20 @@ func (g *gen) selSet(def *ast.Definition, depth int, label string) string {
 // selSetX: inAbstractFragment is true for the body of a fragment whose type condition is an
 // interface or union.
 func (g *gen) selSetX(def *ast.Definition, depth int, label string, inAbstractFragment bool) string {
+	return g.selSetL(def, depth, label, inAbstractFragment, nil)
+}
+
+// level tracks one response-object level (a field's selection set including all fragments
+// spread into it): which composite response keys were already selected there.
+type level struct {
+	composite map[string]bool
+	rootKind  ast.DefinitionKind
+}
+
+func (g *gen) selSetL(def *ast.Definition, depth int, label string, inAbstractFragment bool, lv *level) string {
+	if lv == nil {
+		lv = &level{composite: map[string]bool{}, rootKind: def.Kind}
+	}
 	var parts []string
 	n := rapid.IntRange(1, 4).Draw(g.t, label+"n")
 	fields := g.selectable(def)
@@ -299,7 +313,7 @@ func (g *gen) selSetX(def *ast.Definition, depth int, label string, inAbstractFr
 			if target.Kind != ast.Object {
 				g.feat["fragment-on-abstract"] = true
 			}
-			body := g.selSetX(target, depth+1, label+"f", target.Kind != ast.Object)
+			body := g.selSetL(target, depth+1, label+"f", target.Kind != ast.Object, lv)
 			switch rapid.IntRange(0, 3).Draw(g.t, label+"fragk") {
 			case 0:
 				name := g.next("F")
@@ -330,12 +344,20 @@ func (g *gen) selSetX(def *ast.Definition, depth int, label string, inAbstractFr
 			if composite && depth >= g.o.MaxDepth {
 				continue
 			}
-			g.budget--
 			alias := ""
 			if rapid.IntRange(0, 4).Draw(g.t, label+"al") == 0 {
 				alias = g.next("a")
 				g.feat["alias"] = true
 			}
+			if composite && alias == "" {
+				// a composite response key is selected at most once per response-object level
+				// (across all fragments spread into it)
+				if lv.composite[f.Name] && !g.allow("composite-key-in-multiple-fragments") {
+					continue
+				}
+				lv.composite[f.Name] = true
+			}
+			g.budget--
 			s := f.Name
 			if len(f.Arguments) > 0 {
 				if alias == "" {
@@ -361,7 +383,7 @@ func (g *gen) selSetX(def *ast.Definition, depth int, label string, inAbstractFr
 			parts = append(parts, s)
 			// duplicate / overlapping occurrence of the same response key
 			if rapid.IntRange(0, 7).Draw(g.t, label+"dup") == 0 {
-				if composite && alias == "" && g.budget > 0 && (ft.Kind == ast.Object || g.allow("overlapping-abstract-field")) {
+				if composite && alias == "" && g.budget > 0 && lv.rootKind == ast.Object && !inAbstractFragment && (ft.Kind == ast.Object || g.allow("overlapping-abstract-field")) {
 					base := f.Name
 					if len(f.Arguments) > 0 {
 						base += g.argText[f.Name]
